@@ -2,6 +2,7 @@ package props
 
 import (
 	"fmt"
+	"github.com/spf13/afero"
 	"sort"
 	"strings"
 
@@ -291,7 +292,13 @@ func runC04(rc *RunCtx, big int) *simkit.Violation {
 	}
 	// the uploader's own view of the entries is not authoritative: read them back
 	cfgD := downloadOpts{concDown: t.Pick(1, 2, 3, 10, 20), concList: t.Pick(1, 2, 10)}
-	mb, mfn := d.downloadFn(d.Stores(rd), "r1", ub.BundleID, nil, downloadOpts{metaOnly: true, concList: cfgD.concList})
+	// one time in three the reader is one long-lived Bundle value: it loads the metadata, is inspected, then downloads
+	sameValue := t.Bool(1, 3)
+	var dst afero.Fs
+	if sameValue {
+		dst = memDisk()
+	}
+	mb, mfn := d.downloadFn(d.Stores(rd), "r1", ub.BundleID, dst, downloadOpts{metaOnly: true, concList: cfgD.concList, concDown: cfgD.concDown})
 	mt, v := doOp(prop, w, rd, "download-metadata", mfn)
 	if v != nil {
 		return v
@@ -310,8 +317,14 @@ func runC04(rc *RunCtx, big int) *simkit.Violation {
 	}
 
 	// full download
-	dst := memDisk()
-	_, pfn := d.downloadFn(d.Stores(rd), "r1", ub.BundleID, dst, cfgD)
+	var pfn func() (interface{}, error)
+	if sameValue {
+		pfn = func() (interface{}, error) { return mb, core.Publish(bg, mb) }
+		w.Probe("one-bundle-value-inspects-then-downloads")
+	} else {
+		dst = memDisk()
+		_, pfn = d.downloadFn(d.Stores(rd), "r1", ub.BundleID, dst, cfgD)
+	}
 	pt, v := doOp(prop, w, rd, "publish", pfn)
 	if v != nil {
 		return v
